@@ -8,13 +8,44 @@ use rustyline::Editor;
 
 fn check_bracket_closed(chars: impl Iterator<Item = char>) -> bool {
     let mut count = 0;
-    let mut in_comment = false;
-    for c in chars {
-        match (c, in_comment) {
-            ('(', false) => count += 1,
-            (')', false) => count -= 1,
-            (';', false) => in_comment = true,
-            ('\n', true) => in_comment = false,
+    let mut chars = chars.peekable();
+    // parentheses count only where the lexer would read them as tokens: not in
+    // comments, string literals, |quoted identifiers| or character literals
+    while let Some(c) = chars.next() {
+        match c {
+            '(' => count += 1,
+            ')' => count -= 1,
+            ';' => {
+                for c in &mut chars {
+                    if c == '\n' || c == '\r' {
+                        break;
+                    }
+                }
+            }
+            '"' => {
+                while let Some(c) = chars.next() {
+                    match c {
+                        '"' => break,
+                        '\\' => {
+                            chars.next();
+                        }
+                        _ => (),
+                    }
+                }
+            }
+            '|' => {
+                for c in &mut chars {
+                    if c == '|' {
+                        break;
+                    }
+                }
+            }
+            '#' => {
+                if chars.peek() == Some(&'\\') {
+                    chars.next();
+                    chars.next();
+                }
+            }
             _ => (),
         }
     }
